@@ -26,6 +26,7 @@ type GenOpts struct {
 	NoFloat     bool // avoid fn:avg (float results)
 	NoCollect   bool
 	NoOrderCmp  bool // no <, <=, >, >= (C15: outside post-hoc provenance)
+	ConstraintsEarly bool // (in)equalities and comparisons are moved as far left as their variables allow
 	NegAnywhere bool // negated atoms may be written before the atoms that bind their variables
 	NonLinear   bool // bias recursive rules towards several same-group atoms in one body
 	IDBFacts    bool // some derived predicates also have base facts written in the program
@@ -46,6 +47,7 @@ func DrawOpts(r *simrt.Run) GenOpts {
 	o.Strings = r.Bool("gen.f.str")
 	o.NegWildcard = r.Bool("gen.f.negwild")
 	o.NegAnywhere = r.Bool("gen.f.neganywhere")
+	o.ConstraintsEarly = r.Bool("gen.f.constraintsearly")
 	o.NonLinear = r.Bool("gen.f.nonlinear")
 	o.IDBFacts = r.Bool("gen.f.idbfacts")
 	return o
@@ -468,6 +470,41 @@ func (g *gen) genRule(h PredInfo, k int) Rule {
 					}
 				}
 			}
+		}
+	}
+	if o.ConstraintsEarly {
+		// move each filter ((in)equality between bound terms, comparison) to the
+		// earliest position at which all its variables are bound by atoms
+		for i := 0; i < len(body); i++ {
+			l := body[i]
+			if l.K == LAtom || l.K == LNeg || l.K == LBuiltin {
+				continue
+			}
+			vars := map[string]bool{}
+			l.Vars(vars)
+			if l.K == LEq && l.Args[0].Var != "" {
+				// a binding equality: only its right-hand side has to be bound
+				vars = exprVars(l.Args[1])
+				continue
+			}
+			bound := map[string]bool{}
+			earliest := 0
+			for j := 0; j < i; j++ {
+				if allBound(vars, bound) {
+					break
+				}
+				if bs, ok := litBinds(body[j], bound); ok {
+					for _, v := range bs {
+						bound[v] = true
+					}
+				}
+				earliest = j + 1
+			}
+			if !allBound(vars, bound) || earliest >= i || !r.Bool("gen.constraint.early") {
+				continue
+			}
+			copy(body[earliest+1:i+1], body[earliest:i])
+			body[earliest] = l
 		}
 	}
 	if o.NegAnywhere {
